@@ -117,6 +117,20 @@ CLAIMED = {
              "failures and malloc failure are outside (the library aborts on memory exhaustion by design). Axioms: propext, Classical.choice, Quot.sound.",
         technique="Lean 4 proofs over all failure scripts of the xcm.c ladders + differential correspondence + exhaustive single-fault injection on the real library",
         ref="DESIGN.md §5 C08"),
+    "C15": dict(
+        text="Translator + Lean 4: on every run extract/ext_globals.py regenerates from the library sources the table of all process-wide "
+             "mutable state (static variables; fields of the structures behind them: the wake-up descriptor pool, the TLS context cache) "
+             "with every access site and its protection; the theorems decide over the whole table (kernel `decide`): every site is "
+             "constructor-time, atomic, inside the critical section of a lock (directly or through all callers), a read of an init-only "
+             "variable, a fresh object or one of two stated pinned-immutable reads (C15_every_access_protected); one lock per variable "
+             "(C15_one_lock_per_variable); no update split into separate atomic load and store (C15_no_split_read_modify_write). "
+             "Dynamic side: the whole library under ThreadSanitizer with 8 threads on distinct sockets of all transports in "
+             "barrier-synchronised bursts, hand-off between threads, socket-id uniqueness.",
+        note="The table is a syntactic extraction (trusted, checked against two seeded changes and the TSan runs); state inside OpenSSL, c-ares "
+             "and glibc is the environment. ThreadSanitizer judges only the interleavings that occurred. Per-thread delivery guarantees are "
+             "C01-C04 of each connection. Axioms: propext (and decide's reduction), no native_decide.",
+        technique="source-to-table translator regenerated every run + Lean 4 theorems decided over the table + ThreadSanitizer system harness",
+        ref="DESIGN.md §5 C15"),
     "C07": dict(
         text="Lean 4 proofs on the framing model for an ARBITRARY arrived byte stream in arbitrary segmentation: the "
              "receive buffer never exceeds one maximum-size frame and no mbuf.h assertion can fire (C07_bounded_buffer), "
